@@ -828,7 +828,11 @@ def check_no_errors(case):
     for variant, markup in (("explicit", writer(doc)), ("optional tags omitted", writer_omitting(doc)), ("other conforming spellings", writer_styled(doc, salt)),
                             ("other conforming spellings", writer_styled(doc, salt + 1))):
         p = h5.parser("etree", True, full_tree=True)
-        tree = p.parse(markup)
+        try:
+            tree = p.parse(markup)
+        except Exception as e:
+            return Verdict("fail", "parsing a conforming document (%s) raised %s: %s; markup %s" % (variant, type(e).__name__, short(str(e), 80), short(markup, 400)),
+                           "conforming-exception:" + type(e).__name__, nontrivial=True)
         # Whether the tree is the generated one is C01's / C07's business; this clause is about errors only (a parser that builds
         # another tree for a conforming document usually reports an error on the way).  Exception: the optional-tag rules of the
         # standard, taken literally, allow omissions that change the parse (<body> before noscript...): that variant is judged
@@ -844,6 +848,9 @@ def check_no_errors(case):
             ps.parse(markup)
         except ParseError as e:
             return Verdict("fail", "strict mode rejects a conforming document (%s): %s; markup %s" % (variant, e, short(markup, 400)), "conforming-strict", nontrivial=True)
+        except Exception as e:
+            return Verdict("fail", "strict parsing of a conforming document (%s) raised %s, not ParseError; markup %s" % (variant, type(e).__name__, short(markup, 400)),
+                           "conforming-strict-exception:" + type(e).__name__, nontrivial=True)
     return Verdict("pass", nontrivial=True, sig=sig64("noerr", repr(want)), classes=["conforming-doc"])
 
 
